@@ -82,7 +82,7 @@ TxVerdict(p, o) ==
      !.c05 = C05_Tx(sch, idx, hs, o),
      !.c07follows = C07_AutoFollows(sch, idx, p, o),
      !.c07only = C07_OnlyWhenDemanded(sch, idx, p, o),
-     !.c07judged = C07_JudgedIndividually(Fx, sch, topo, o),
+     !.c07judged = C07_JudgedIndividually(Fx, sch, topo, hs, o),
      !.c08 = C08_Parity(idx, o),
      !.c14 = C14_Tx(p, o)]
 
